@@ -135,10 +135,15 @@ def worker_main(pid, tier, seed, w, W, outfile):
         h = hashlib.sha256(f"{seed}:{pid}:{w}:{tag}".encode()).digest()
         return int.from_bytes(h[:8], "big")
 
-    def run_one(strategy, n_examples, tag):
-        state = {"first_fail_t": None, "best": None, "bucket": None}
+    def run_one(strategy, n_examples, tag, skip_first=False):
+        state = {"first_fail_t": None, "best": None, "bucket": None, "calls": 0}
+        if skip_first:
+            n_examples += 1
 
         def body(case):
+            state["calls"] += 1
+            if skip_first and state["calls"] == 1:
+                return  # Hypothesis' first example is the all-minimal one; with 1-3 examples per cell it would dominate
             if st["harness_errors"]:
                 return  # never shrink a harness error
             if state["first_fail_t"] is not None and time.time() - state["first_fail_t"] > shrink_budget:
@@ -202,7 +207,7 @@ def worker_main(pid, tier, seed, w, W, outfile):
             mine = cells[w::W]
             for ci, cell in enumerate(mine):
                 st["cells"][json.dumps(cell)] += 1
-                run_one(mod.strategy(tier, cell), per, f"cell{ci}")
+                run_one(mod.strategy(tier, cell), per, f"cell{ci}", skip_first=True)
                 if st["violations"] or st["harness_errors"]:
                     break
         else:
